@@ -374,7 +374,7 @@ pub fn run(tier: Tier) -> CheckResult {
     res.coverage.set("name_key_projects", name_projects.len() as u64);
     res.coverage.set("exhaustive", exhaustive);
     res.coverage.set("samples", json!(types.iter().step_by((types.len() / 6).max(1)).take(6).map(|t| t.to_rust()).collect::<Vec<_>>()));
-    res.coverage.set("rule", "C05's type enumeration placed at the field and parameter sites, generated in Zod mode; the field / parameter schema is read back from the parsed z.object(...) initialiser into a Shape and compared with the reference denotation of the Rust type under the property's relation (null and undefined identified, coerce ignored; z.set / z.map / functions are never equal to arrays / records and are flagged as not JSON-serialisable); plus: for the three base projects, a project whose types are reached only through event payloads, a project with mapped types at parameter / field / channel / return / event positions (channel message types included in the comparison) and the C06 item groups (one per container setting and item kind), the declared names and their key sets (interfaces vs z.infer aliases, literal unions vs z.enum) must be identical in both modes. Non-trivial = composite type whose schema was read and agreed.");
+    res.coverage.set("rule", "[round 7: under a mapping table the shape of every key an interface of the plain run shares with the schema of the same name in the Zod run is compared; the mapped project has a channel-only command and mapped types as parameters] C05's type enumeration placed at the field and parameter sites, generated in Zod mode; the field / parameter schema is read back from the parsed z.object(...) initialiser into a Shape and compared with the reference denotation of the Rust type under the property's relation (null and undefined identified, coerce ignored; z.set / z.map / functions are never equal to arrays / records and are flagged as not JSON-serialisable); plus: for the three base projects, a project whose types are reached only through event payloads, a project with mapped types at parameter / field / channel / return / event positions (channel message types included in the comparison) and the C06 item groups (one per container setting and item kind), the declared names and their key sets (interfaces vs z.infer aliases, literal unions vs z.enum) must be identical in both modes. Non-trivial = composite type whose schema was read and agreed.");
     res.assumptions = vec!["the plain side of the relation is the reference denotation (whether the plain rendering itself matches it is C05's business)".into()];
     res
 }
